@@ -40,6 +40,7 @@ WritePath == /\ IsEvent("write")
 (* after close and reopen: the listing has exactly the accepted members, none absolute, none climbing *)
 Closed == /\ IsEvent("closed")
           /\ Ev.listed = count
+          /\ Ev.same                       \* rejected calls left no mark: same folders / streams / size as a session without them
           /\ \A i \in 1..Len(Ev.names) : Ev.names[i].lead = 0 /\ Climb(Ev.names[i].comps, 0)
           /\ UNCHANGED count
 
